@@ -41,23 +41,47 @@ Section Cor.
   Variables (c : cfg) (mi : Z -> list Z).
   Hypothesis W : WF c mi.
 
-  Definition start_state (e : Z) : st := init_state e (upe c * e) (spe c * e).
+  Definition start_state (e : Z) (pn : list nat) : st := init_state e (upe c * e) (spe c * e) pn.
 
   (* ---------------- termination ---------------- *)
+  (* the beginning of epoch e lies strictly before every given budget, and a budget is given *)
   Definition before_budget (e : Z) : Prop :=
-    match bud c with
-    | Epochs E => e < E
-    | Updates U => upe c * e < U
-    | Samples X => spe c * e < X
-    end.
+    (forall E, bE c = Some E -> e < E) /\
+    (forall U, bU c = Some U -> upe c * e < U) /\
+    (forall X, bS c = Some X -> spe c * e < X) /\
+    (is_some (bE c) || is_some (bU c) || is_some (bS c) = true).
+
+  Lemma hit_k_E k E : bE c = Some E -> k_epoch k = E -> hit_k c k = true.
+  Proof. intros Hb He. unfold hit_k, budget_reached. rewrite Hb. cbn [opt_test]. rewrite (proj2 (Z.eqb_eq _ _) He). reflexivity. Qed.
+  Lemma hit_k_U k U : bU c = Some U -> k_update k = U -> hit_k c k = true.
+  Proof. intros Hb He. unfold hit_k, budget_reached. rewrite Hb. cbn [opt_test]. rewrite (proj2 (Z.eqb_eq _ _) He). rewrite orb_true_r. reflexivity. Qed.
+  Lemma hit_k_S k X : bS c = Some X -> X <= k_sample k -> hit_k c k = true.
+  Proof. intros Hb He. unfold hit_k, budget_reached. rewrite Hb. cbn [opt_test]. rewrite (proj2 (Z.leb_le _ _) He). apply orb_true_r. Qed.
+
+  (* no budget reached, spelled out *)
+  Lemma nohit_k k : hit_k c k = false ->
+    (forall E, bE c = Some E -> k_epoch k <> E) /\ (forall U, bU c = Some U -> k_update k <> U) /\
+    (forall X, bS c = Some X -> k_sample k < X).
+  Proof.
+    unfold hit_k, budget_reached. intros H. apply orb_false_iff in H. destruct H as [H H3].
+    apply orb_false_iff in H. destruct H as [H1 H2]. repeat split.
+    - intros E Hb. rewrite Hb in H1. cbn in H1. now apply Z.eqb_neq.
+    - intros U Hb. rewrite Hb in H2. cbn in H2. now apply Z.eqb_neq.
+    - intros X Hb. rewrite Hb in H3. cbn in H3. now apply Z.leb_gt.
+  Qed.
 
   Lemma epoch_hits_of e j :
     (j < length (epoch_batches c mi e))%nat ->
-    hit c (upd_at c e (epoch_batches c mi e) j) = true -> epoch_hits c mi e = true.
+    hit_k c (counters_at c e (epoch_batches c mi e) j) = true -> epoch_hits c mi e = true.
   Proof.
-    intros Hj Hh. unfold epoch_hits, epoch_updates.
-    apply (take_until_found _ _ (upd_at c e (epoch_batches c mi e) j)); auto.
-    apply in_map. apply in_seq. lia.
+    intros Hj Hh. unfold epoch_hits. apply existsb_exists. exists j. split; [apply in_seq; lia|exact Hh].
+  Qed.
+
+  Lemma epoch_nohit e : epoch_hits c mi e = false ->
+    forall j, (j < length (epoch_batches c mi e))%nat -> hit_k c (counters_at c e (epoch_batches c mi e) j) = false.
+  Proof.
+    intros H j Hj. destruct (hit_k c _) eqn:E; [|reflexivity].
+    rewrite (epoch_hits_of e j Hj E) in H. discriminate.
   Qed.
 
   Lemma counters_last e :
@@ -74,106 +98,221 @@ Section Cor.
     rewrite Nat.eqb_refl, firstn_all. repeat split; lia.
   Qed.
 
-  Lemma hits_last_epoch E e : bud c = Epochs E -> e + 1 = E -> epoch_hits c mi e = true.
+  Lemma len_concat_firstn (bs : list (list Z)) m : len (concat (firstn m bs)) <= len (concat bs).
+  Proof.
+    rewrite <- (firstn_skipn m bs) at 2. rewrite concat_app, len_app.
+    pose proof (len_nonneg (concat (skipn m bs))). lia.
+  Qed.
+
+  (* range of the counters inside epoch e *)
+  Lemma counters_range e j : (j < length (epoch_batches c mi e))%nat ->
+    let k := counters_at c e (epoch_batches c mi e) j in
+    e <= k_epoch k <= e + 1 /\ e * upe c < k_update k <= (e + 1) * upe c /\ k_sample k <= (e + 1) * spe c.
+  Proof.
+    intros Hj. cbv zeta. pose proof (epoch_batches_len c mi W e) as Hlen.
+    pose proof (epoch_batches_count c mi W e) as Hcnt.
+    pose proof (len_concat_firstn (epoch_batches c mi e) (S j)).
+    unfold counters_at. cbn [k_epoch k_update k_sample].
+    destruct (S j =? length (epoch_batches c mi e))%nat; repeat split; lia.
+  Qed.
+
+  Lemma hits_last_epoch E e : bE c = Some E -> e + 1 = E -> epoch_hits c mi e = true.
   Proof.
     intros Hb He. pose proof (counters_last e) as [H1 [H2 H3]].
     pose proof (epoch_batches_count c mi W e). pose proof (upe_pos c mi W).
     apply (epoch_hits_of e (length (epoch_batches c mi e) - 1)); [lia|].
-    unfold hit, upd_at. cbn [u_k]. unfold budget_reached. rewrite Hb, H1. apply Z.eqb_eq. lia.
+    apply (hit_k_E _ E Hb). lia.
   Qed.
 
-  Lemma hits_update U e : bud c = Updates U -> e * upe c < U <= (e + 1) * upe c -> epoch_hits c mi e = true.
+  Lemma hits_update U e : bU c = Some U -> e * upe c < U <= (e + 1) * upe c -> epoch_hits c mi e = true.
   Proof.
     intros Hb HU. pose proof (epoch_batches_count c mi W e) as Hcnt.
     apply (epoch_hits_of e (Z.to_nat (U - e * upe c - 1))); [lia|].
-    unfold hit, upd_at. cbn [u_k]. unfold budget_reached, counters_at. rewrite Hb. cbn [k_update].
-    apply Z.eqb_eq. lia.
+    apply (hit_k_U _ U Hb). unfold counters_at. cbn [k_update]. lia.
   Qed.
 
-  Lemma hits_sample X e : bud c = Samples X -> X <= (e + 1) * spe c -> epoch_hits c mi e = true.
+  Lemma hits_sample X e : bS c = Some X -> X <= (e + 1) * spe c -> epoch_hits c mi e = true.
   Proof.
     intros Hb HS. pose proof (counters_last e) as [H1 [H2 H3]].
     pose proof (epoch_batches_count c mi W e). pose proof (upe_pos c mi W).
     apply (epoch_hits_of e (length (epoch_batches c mi e) - 1)); [lia|].
-    unfold hit, upd_at. cbn [u_k]. unfold budget_reached. rewrite Hb, H3. apply Z.leb_le. lia.
+    apply (hit_k_S _ X Hb). lia.
   Qed.
 
-  Lemma spec_run_terminates : forall n e,
-    before_budget e -> (default_fuel c (start_state e) <= n)%nat ->
-    exists tr, spec_run c mi e n = Some tr.
+  (* an epoch that does not stop the run ends strictly before every budget *)
+  Lemma before_next e : before_budget e -> epoch_hits c mi e = false -> before_budget (e + 1).
+  Proof.
+    intros (HE & HU & HX & Hsome) Hh. repeat split; auto.
+    - intros E Hb. specialize (HE E Hb). destruct (Z.eq_dec (e + 1) E) as [He|He]; [|lia].
+      rewrite (hits_last_epoch E e Hb He) in Hh. discriminate.
+    - intros U Hb. specialize (HU U Hb). destruct (Z_le_gt_dec U ((e + 1) * upe c)) as [Hle|Hgt]; [|lia].
+      rewrite (hits_update U e Hb) in Hh by lia. discriminate.
+    - intros X Hb. specialize (HX X Hb). destruct (Z_le_gt_dec X ((e + 1) * spe c)) as [Hle|Hgt]; [|lia].
+      rewrite (hits_sample X e Hb Hle) in Hh. discriminate.
+  Qed.
+
+  (* conversely: before the beginning of an epoch that lies strictly before the
+     budget nothing stops the run *)
+  Lemma before_prev e : before_budget (e + 1) -> before_budget e /\ epoch_hits c mi e = false.
   Proof.
     pose proof (upe_pos c mi W) as Hupe. pose proof (spe_range c mi W) as Hspe.
-    unfold before_budget, default_fuel, start_state, init_state. cbn [epoch update sample].
-    induction n as [|n IH]; intros e Hbef Hfuel.
-    - destruct (bud c); lia.
+    intros (HE & HU & HX & Hsome). split.
+    - repeat split; auto.
+      + intros E Hb. specialize (HE E Hb). lia.
+      + intros U Hb. specialize (HU U Hb). lia.
+      + intros X Hb. specialize (HX X Hb). lia.
+    - destruct (epoch_hits c mi e) eqn:Hh; [|reflexivity]. exfalso.
+      unfold epoch_hits in Hh. apply existsb_exists in Hh. destruct Hh as [j [Hj Hh]].
+      apply in_seq in Hj. pose proof (counters_range e j ltac:(lia)) as Hr. cbv zeta in Hr.
+      set (k := counters_at c e (epoch_batches c mi e) j) in *.
+      unfold hit_k, budget_reached in Hh. apply orb_true_iff in Hh. destruct Hh as [Hh|Hh].
+      + apply orb_true_iff in Hh. destruct Hh as [Hh|Hh].
+        * destruct (bE c) as [E|] eqn:Hb; [|discriminate]. cbn [opt_test] in Hh. apply Z.eqb_eq in Hh.
+          specialize (HE E eq_refl). lia.
+        * destruct (bU c) as [U|] eqn:Hb; [|discriminate]. cbn [opt_test] in Hh. apply Z.eqb_eq in Hh.
+          specialize (HU U eq_refl). lia.
+      + destruct (bS c) as [X|] eqn:Hb; [|discriminate]. cbn [opt_test] in Hh. apply Z.leb_le in Hh.
+        specialize (HX X eq_refl). lia.
+  Qed.
+
+  Lemma spec_run_terminates : forall n e pn,
+    before_budget e -> (default_fuel c (start_state e pn) <= n)%nat ->
+    exists tr, spec_run c mi e pn n = Some tr.
+  Proof.
+    pose proof (upe_pos c mi W) as Hupe. pose proof (spe_range c mi W) as Hspe.
+    induction n as [|n IH]; intros e pn Hbef Hfuel.
+    - exfalso. destruct Hbef as (HE & HU & HX & Hsome).
+      unfold default_fuel, start_state, init_state in Hfuel. cbn [epoch update sample] in Hfuel.
+      destruct (bE c) as [E|]; [specialize (HE E eq_refl); lia|].
+      destruct (bU c) as [U|]; [specialize (HU U eq_refl); lia|].
+      destruct (bS c) as [X|]; [specialize (HX X eq_refl); lia|]. discriminate.
     - cbn [spec_run]. destruct (epoch_hits c mi e) eqn:Hh; [eexists; reflexivity|].
-      destruct (IH (e + 1)) as [tr Htr].
-      + destruct (bud c) as [E|U|X] eqn:Hb.
-        * destruct (Z.eq_dec (e + 1) E) as [He|He]; [|lia].
-          rewrite (hits_last_epoch E e Hb He) in Hh. discriminate.
-        * destruct (Z_le_gt_dec U ((e + 1) * upe c)) as [Hle|Hgt]; [|lia].
-          rewrite (hits_update U e Hb) in Hh by lia. discriminate.
-        * destruct (Z_le_gt_dec X ((e + 1) * spe c)) as [Hle|Hgt]; [|lia].
-          rewrite (hits_sample X e Hb Hle) in Hh. discriminate.
-      + destruct (bud c); nia.
+      destruct (IH (e + 1) (pn_next c mi e pn)) as [tr Htr].
+      + now apply before_next.
+      + destruct Hbef as (HE & HU & HX & Hsome).
+        unfold default_fuel, start_state, init_state in *. cbn [epoch update sample] in *.
+        destruct (bE c) as [E|]; [lia|]. destruct (bU c) as [U|]; [nia|]. destruct (bS c) as [X|]; [nia|]. lia.
       + rewrite Htr. eexists; reflexivity.
   Qed.
 
-  Theorem sampler_terminates e : before_budget e ->
-    exists tr, run c mi (default_fuel c (start_state e)) (start_state e) = Some tr.
+  Theorem sampler_terminates e pn : length pn = length (sides c) -> before_budget e ->
+    exists tr, run c mi (default_fuel c (start_state e pn)) (start_state e pn) = Some tr.
   Proof.
-    intros Hb. unfold start_state. rewrite (model_eq_spec c mi W).
+    intros Hpl Hb. unfold start_state. rewrite (model_eq_spec c mi W) by exact Hpl.
     apply spec_run_terminates; auto.
+  Qed.
+
+  (* more fuel does not change the answer *)
+  Lemma spec_run_fuel_mono : forall n e pn tr, spec_run c mi e pn n = Some tr ->
+    forall m, spec_run c mi e pn (n + m) = Some tr.
+  Proof.
+    induction n as [|n IH]; intros e pn tr H m; [discriminate|].
+    cbn [plus spec_run] in *. destruct (epoch_hits c mi e); [exact H|].
+    destruct (spec_run c mi (e + 1) (pn_next c mi e pn) n) as [rest|] eqn:E; [|discriminate].
+    now rewrite (IH _ _ _ E m).
   Qed.
 
   (* ---------------- the stop is exact ---------------- *)
   (* within an epoch: no update before the last shown one reaches the budget; if
      the epoch stops the run, its last shown update does *)
-  Theorem stop_exact e :
-    let us := fst (take_until (hit c) (epoch_updates c mi e)) in
+  Theorem stop_exact e pn :
+    let us := fst (take_until (hit c) (epoch_updates c mi e pn)) in
     Forall (fun u => hit c u = false) (removelast us) /\
     (epoch_hits c mi e = true -> exists u, us = removelast us ++ [u] /\ hit c u = true) /\
-    (epoch_hits c mi e = false -> us = epoch_updates c mi e /\ Forall (fun u => hit c u = false) us).
+    (epoch_hits c mi e = false -> us = epoch_updates c mi e pn /\ Forall (fun u => hit c u = false) us).
   Proof.
-    cbv zeta. unfold epoch_hits.
-    pose proof (take_until_prefix (hit c) (epoch_updates c mi e)) as H.
-    destruct (take_until (hit c) (epoch_updates c mi e)) as [r f]. cbn [fst snd].
+    cbv zeta. rewrite <- (epoch_hits_eq c mi e pn).
+    pose proof (take_until_prefix (hit c) (epoch_updates c mi e pn)) as H.
+    destruct (take_until (hit c) (epoch_updates c mi e pn)) as [r f]. cbn [fst snd].
     destruct H as [rest [H1 [H2 [H3 H4]]]]. split; [exact H2|]. split; [exact H3|].
     intros Hf. destruct (H4 Hf) as [Hr Hall]. split; [exact Hr|]. now rewrite Hr.
   Qed.
 
   (* ---------------- resume ---------------- *)
-  Fixpoint epochs_events (e0 : Z) (k : nat) : list event :=
-    match k with O => [] | S k' => epoch_events c mi e0 ++ epochs_events (e0 + 1) k' end.
+  Fixpoint epochs_events (e0 : Z) (pn : list nat) (k : nat) : list event :=
+    match k with
+    | O => []
+    | S k' => epoch_events c mi e0 pn ++ epochs_events (e0 + 1) (pn_next c mi e0 pn) k'
+    end.
+
+  (* how often every config's sampler was iterated when k more epochs are over *)
+  Fixpoint pn_after (e0 : Z) (pn : list nat) (k : nat) : list nat :=
+    match k with O => pn | S k' => pn_after (e0 + 1) (pn_next c mi e0 pn) k' end.
 
   Fixpoint no_hit_in (e0 : Z) (k : nat) : Prop :=
     match k with O => True | S k' => epoch_hits c mi e0 = false /\ no_hit_in (e0 + 1) k' end.
 
-  Lemma spec_resume : forall k e0 n, no_hit_in e0 k ->
-    spec_run c mi e0 (k + n) = option_map (app (epochs_events e0 k)) (spec_run c mi (e0 + Z.of_nat k) n).
+  Lemma spec_resume : forall k e0 pn n, no_hit_in e0 k ->
+    spec_run c mi e0 pn (k + n) =
+    option_map (app (epochs_events e0 pn k)) (spec_run c mi (e0 + Z.of_nat k) (pn_after e0 pn k) n).
   Proof.
-    induction k as [|k IH]; intros e0 n Hno.
-    - cbn. rewrite Z.add_0_r. destruct (spec_run c mi e0 n); reflexivity.
-    - destruct Hno as [Hh Hno]. cbn [plus spec_run epochs_events]. rewrite Hh.
-      rewrite (IH (e0 + 1) n Hno).
+    induction k as [|k IH]; intros e0 pn n Hno.
+    - cbn. rewrite Z.add_0_r. destruct (spec_run c mi e0 pn n); reflexivity.
+    - destruct Hno as [Hh Hno]. cbn [plus spec_run epochs_events pn_after]. rewrite Hh.
+      rewrite (IH (e0 + 1) _ n Hno).
       replace (e0 + 1 + Z.of_nat k) with (e0 + Z.of_nat (S k)) by lia.
-      destruct (spec_run c mi (e0 + Z.of_nat (S k)) n); cbn [option_map]; [|reflexivity].
+      destruct (spec_run c mi (e0 + Z.of_nat (S k)) _ n); cbn [option_map]; [|reflexivity].
       now rewrite app_assoc.
   Qed.
 
-  Theorem resume_is_suffix k e0 n : no_hit_in e0 k ->
-    run c mi (k + n) (start_state e0) =
-    option_map (app (epochs_events e0 k)) (run c mi n (start_state (e0 + Z.of_nat k))).
+  Lemma pn_after_length : forall k e0 pn, length pn = length (sides c) ->
+    length (pn_after e0 pn k) = length (sides c).
   Proof.
-    intros Hno. unfold start_state. rewrite !(model_eq_spec c mi W). now apply spec_resume.
+    induction k as [|k IH]; intros e0 pn H; [exact H|]. cbn [pn_after]. apply IH.
+    now apply (pn_next_length c mi).
   Qed.
 
+  Theorem resume_is_suffix k e0 pn n : length pn = length (sides c) -> no_hit_in e0 k ->
+    run c mi (k + n) (start_state e0 pn) =
+    option_map (app (epochs_events e0 pn k)) (run c mi n (start_state (e0 + Z.of_nat k) (pn_after e0 pn k))).
+  Proof.
+    intros Hpl Hno. unfold start_state.
+    rewrite !(model_eq_spec c mi W) by (auto using pn_after_length). now apply spec_resume.
+  Qed.
+
+  (* a checkpoint strictly before the budget: no earlier epoch stops the run *)
+  Lemma before_no_hit : forall k e0, before_budget (e0 + Z.of_nat k) -> no_hit_in e0 k.
+  Proof.
+    induction k as [|k IH]; intros e0 Hb; [exact I|].
+    assert (forall j e, before_budget (e + Z.of_nat j) -> before_budget e) as Hmono.
+    { induction j as [|j IHj]; intros e H; [now rewrite Z.add_0_r in H|].
+      apply IHj. apply before_prev. now replace (e + Z.of_nat j + 1) with (e + Z.of_nat (S j)) by lia. }
+    cbn [no_hit_in]. split.
+    - apply before_prev. apply (Hmono k). now replace (e0 + 1 + Z.of_nat k) with (e0 + Z.of_nat (S k)) by lia.
+    - apply IH. now replace (e0 + 1 + Z.of_nat k) with (e0 + Z.of_nat (S k)) by lia.
+  Qed.
+
+  Theorem resume_before_budget k e0 pn n : length pn = length (sides c) ->
+    before_budget (e0 + Z.of_nat k) ->
+    run c mi (k + n) (start_state e0 pn) =
+    option_map (app (epochs_events e0 pn k)) (run c mi n (start_state (e0 + Z.of_nat k) (pn_after e0 pn k))).
+  Proof. intros Hpl Hb. apply resume_is_suffix; [exact Hpl|now apply before_no_hit]. Qed.
+
+  Theorem run_fuel_mono n e pn tr m : length pn = length (sides c) ->
+    run c mi n (start_state e pn) = Some tr -> run c mi (n + m) (start_state e pn) = Some tr.
+  Proof.
+    intros Hpl. unfold start_state. rewrite !(model_eq_spec c mi W) by exact Hpl.
+    intros H. now apply spec_run_fuel_mono.
+  Qed.
+
+  Theorem epoch_batches_facts e :
+    concat (epoch_batches c mi e) = firstn (Z.to_nat (spe c)) (mi e) /\
+    shape (Z.to_nat (cB c)) (epoch_batches c mi e) /\
+    Z.of_nat (length (epoch_batches c mi e)) = upe c.
+  Proof.
+    split; [|split].
+    - exact (epoch_batches_concat c mi W e).
+    - exact (epoch_batches_shape c mi W e).
+    - exact (epoch_batches_count c mi W e).
+  Qed.
+
+  (* ---------------- the constructor's checkpoint ---------------- *)
   (* the constructor accepts exactly the epoch-boundary checkpoints and derives
      the state the uninterrupted run has there *)
   Theorem init_checkpoint_spec a : init_checkpoint c a = spec_start c a.
   Proof.
     pose proof (upe_pos c mi W) as Hupe. pose proof (wf_B c mi W) as HB.
-    destruct a as [|e|u|s]; cbn [init_checkpoint spec_start].
+    destruct a as [|e|u|s]; cbn [init_checkpoint start_opts checkpoint spec_start is_some orb].
     - reflexivity.
     - f_equal; lia.
     - destruct (drop_last c) eqn:Hd; cbn [negb andb orb].
@@ -190,20 +329,198 @@ Section Cor.
       + rewrite orb_true_r. reflexivity.
   Qed.
 
-  (* ---------------- zero budget, offsets ---------------- *)
-  Theorem zero_budget_one_pass : zero_budget c = true ->
-    sampler_iter c mi 0 0 0 = Some (spec_eval c 0 (sides c)).
+  Definition accepted (r : start_result) : Prop := match r with Start _ _ _ => True | _ => False end.
+
+  (* which checkpoints are accepted, for each of the three ways of giving one *)
+  Theorem checkpoint_accepted_iff :
+    (forall e, init_checkpoint c (StartEpoch e) = Start e (upe c * e) (spe c * e)) /\
+    (forall u, accepted (init_checkpoint c (StartUpdate u)) <-> drop_last c = true /\ exists e, u = upe c * e) /\
+    (forall u, ~ accepted (init_checkpoint c (StartUpdate u)) <-> init_checkpoint c (StartUpdate u) = NotImplemented) /\
+    (forall s, init_checkpoint c (StartSample s) = AssertFail <-> s mod cB c <> 0) /\
+    (forall s, accepted (init_checkpoint c (StartSample s)) <-> drop_last c = true /\ exists e, s = spe c * e) /\
+    (forall s, ~ accepted (init_checkpoint c (StartSample s)) /\ s mod cB c = 0
+               <-> init_checkpoint c (StartSample s) = NotImplemented).
+  Proof.
+    pose proof (upe_pos c mi W) as Hupe. pose proof (wf_B c mi W) as HB.
+    assert (Hdiv : forall u, u mod upe c = 0 <-> exists e, u = upe c * e).
+    { intros u. split.
+      - intros Hm. exists (u / upe c). rewrite (Z.div_mod u (upe c)) at 1 by lia. lia.
+      - intros [e ->]. rewrite Z.mul_comm. apply Z.mod_mul. lia. }
+    split; [reflexivity|].
+    split; [|split; [|split; [|split]]].
+    - intros u. cbn [init_checkpoint start_opts checkpoint is_some orb].
+      destruct (drop_last c); cbn [negb].
+      + rewrite orb_false_r. destruct (u mod upe c =? 0) eqn:Hm; cbn [negb accepted].
+        * apply Z.eqb_eq in Hm. split; auto. intros _. split; auto. now apply Hdiv.
+        * apply Z.eqb_neq in Hm. split; [tauto|]. intros [_ He]. apply Hdiv in He. contradiction.
+      + rewrite orb_true_r. cbn [accepted]. split; [tauto|]. intros [Hf _]. discriminate.
+    - intros u. cbn [init_checkpoint start_opts checkpoint is_some orb].
+      destruct (negb (u mod upe c =? 0) || negb (drop_last c)); cbn [accepted]; split; auto; try tauto; discriminate.
+    - intros s. cbn [init_checkpoint start_opts checkpoint is_some orb].
+      destruct (s mod cB c =? 0) eqn:Hs; cbn [negb].
+      + apply Z.eqb_eq in Hs. destruct (negb (s / cB c mod upe c =? 0) || negb (drop_last c)); split; try discriminate; intros; contradiction.
+      + apply Z.eqb_neq in Hs. split; auto.
+    - intros s. cbn [init_checkpoint start_opts checkpoint is_some orb].
+      destruct (s mod cB c =? 0) eqn:Hs; cbn [negb].
+      + apply Z.eqb_eq in Hs.
+        destruct (drop_last c) eqn:Hd; cbn [negb].
+        * rewrite orb_false_r. pose proof (spe_upe_drop c mi W Hd) as Hsu.
+          destruct (s / cB c mod upe c =? 0) eqn:Hm; cbn [negb accepted].
+          -- apply Z.eqb_eq in Hm. split; auto. intros _. split; auto.
+             apply Hdiv in Hm. destruct Hm as [e He]. exists e.
+             rewrite (Z.div_mod s (cB c)) at 1 by lia. rewrite Hs, He, Hsu. lia.
+          -- apply Z.eqb_neq in Hm. split; [tauto|]. intros [_ [e He]]. exfalso. apply Hm.
+             apply Hdiv. exists e. subst s. rewrite Hsu.
+             replace (upe c * cB c * e) with (upe c * e * cB c) by ring. now rewrite Z.div_mul by lia.
+        * rewrite orb_true_r. cbn [accepted]. split; [tauto|]. intros [Hf _]. discriminate.
+      + cbn [accepted]. apply Z.eqb_neq in Hs. split; [tauto|]. intros [Hd [e He]]. exfalso. apply Hs.
+        subst s. rewrite (spe_upe_drop c mi W Hd).
+        replace (upe c * cB c * e) with (upe c * e * cB c) by ring. apply Z.mod_mul. lia.
+    - intros s. cbn [init_checkpoint start_opts checkpoint is_some orb].
+      destruct (s mod cB c =? 0) eqn:Hs; cbn [negb].
+      + apply Z.eqb_eq in Hs.
+        destruct (negb (s / cB c mod upe c =? 0) || negb (drop_last c)); cbn [accepted]; split; auto; try tauto; try discriminate.
+      + apply Z.eqb_neq in Hs. cbn [accepted]. split; [tauto|discriminate].
+  Qed.
+
+  (* the three ways of giving a checkpoint are consistent with one another:
+     whatever form is accepted denotes an epoch e and yields exactly the triple
+     that start_epoch = e yields; and with drop_last each form can name every epoch *)
+  Theorem checkpoint_forms_agree :
+    (forall a e u s, init_checkpoint c a = Start e u s -> init_checkpoint c (StartEpoch e) = Start e u s) /\
+    (forall e, drop_last c = true ->
+       init_checkpoint c (StartUpdate (upe c * e)) = init_checkpoint c (StartEpoch e) /\
+       init_checkpoint c (StartSample (spe c * e)) = init_checkpoint c (StartEpoch e)).
+  Proof.
+    pose proof (upe_pos c mi W) as Hupe. pose proof (wf_B c mi W) as HB. split.
+    - intros a e u s H. rewrite init_checkpoint_spec in H.
+      cbn [init_checkpoint start_opts checkpoint is_some orb].
+      destruct a as [|e'|u'|s']; cbn [spec_start] in H.
+      + injection H as <- <- <-. f_equal; lia.
+      + injection H as <- <- <-. f_equal; lia.
+      + destruct (drop_last c && (u' mod upe c =? 0)) eqn:E; [|discriminate].
+        apply andb_true_iff in E. destruct E as [_ Hm]. apply Z.eqb_eq in Hm.
+        injection H as <- <- <-. f_equal; [|lia].
+        rewrite (Z.div_mod u' (upe c)) at 2 by lia. lia.
+      + destruct (s' mod cB c =? 0) eqn:Hs; cbn [negb] in H; [|discriminate].
+        destruct (drop_last c && (s' / cB c mod upe c =? 0)) eqn:E; [|discriminate].
+        apply andb_true_iff in E. destruct E as [_ Hm]. apply Z.eqb_eq in Hm.
+        injection H as <- <- <-. f_equal; [|lia].
+        rewrite (Z.div_mod (s' / cB c) (upe c)) at 2 by lia. lia.
+    - intros e Hd. rewrite !init_checkpoint_spec. cbn [spec_start]. rewrite Hd. cbn [andb negb].
+      pose proof (spe_upe_drop c mi W Hd) as Hsu. split.
+      + replace (upe c * e) with (e * upe c) by ring. rewrite Z.mod_mul, Z.div_mul by lia. reflexivity.
+      + assert (spe c * e = e * upe c * cB c) as -> by (rewrite Hsu; ring).
+        rewrite Z.mod_mul, Z.div_mul by lia. cbn [negb]. rewrite Z.mod_mul, Z.div_mul by lia.
+        cbn. f_equal; rewrite Hsu; ring.
+  Qed.
+
+  (* ---------------- zero budget ---------------- *)
+  Theorem zero_budget_one_pass pn : zero_budget c = true ->
+    sampler_iter c mi 0 0 0 pn = Some (spec_eval c 0 (sides c) pn).
   Proof.
     intros Hz. unfold sampler_iter. rewrite Hz. cbn. now rewrite (eval_loop_spec c mi W).
   Qed.
 
-  Theorem iter_eq_spec e n : zero_budget c = false ->
-    n = default_fuel c (start_state e) ->
-    sampler_iter c mi e (upe c * e) (spe c * e) = spec_iter c mi e n.
+  Theorem iter_eq_spec e pn n : length pn = length (sides c) -> zero_budget c = false ->
+    n = default_fuel c (start_state e pn) ->
+    sampler_iter c mi e (upe c * e) (spe c * e) pn = spec_iter c mi e pn n.
   Proof.
-    intros Hz Hn. unfold sampler_iter, spec_iter. rewrite Hz, Hn. apply (model_eq_spec c mi W).
+    intros Hpl Hz Hn. unfold sampler_iter, spec_iter. rewrite Hz, Hn. now apply (model_eq_spec c mi W).
   Qed.
 End Cor.
+
+(* giving a checkpoint in more than one way is rejected *)
+Theorem checkpoint_two_forms_rejected c se su ss :
+  (2 <= b2n (is_some se) + b2n (is_some su) + b2n (is_some ss))%nat -> checkpoint c se su ss = AssertFail.
+Proof.
+  destruct se, su, ss; cbn; intros H; try reflexivity; lia.
+Qed.
+
+(* ---------------- the constructor's assertions ---------------- *)
+(* declarative: which argument combinations pass the assertions before the checkpoint *)
+Definition one_budget (a : ctor_args) : Prop :=
+  (exists v, 0 <= v /\ a_epochs a = Some v /\ a_updates a = None /\ a_samples a = None) \/
+  (exists v, 0 <= v /\ a_epochs a = None /\ a_updates a = Some v /\ a_samples a = None) \/
+  (exists v, 0 <= v /\ a_epochs a = None /\ a_updates a = None /\ a_samples a = Some v).
+
+Definition args_valid (a : ctor_args) : Prop :=
+  cfg_ok (cfg_of_args a) /\ one_budget a.
+
+Lemma opt_pos_true o : (forall n, o = Some n -> 0 < n) -> opt_pos o = true.
+Proof. intros H. destruct o as [n|]; [|reflexivity]. cbn. apply Z.ltb_lt. now apply H. Qed.
+
+(* an accepted constructor call: the configuration satisfies everything the
+   theorems' well-formedness premise asks of the arguments, exactly one budget
+   is given, and the start triple is the checkpoint derivation's *)
+Theorem ctor_ok a c e u s : ctor a = Ok c e u s ->
+  c = cfg_of_args a /\ args_valid a /\
+  checkpoint c (a_start_epoch a) (a_start_update a) (a_start_sample a) = Start e u s.
+Proof.
+  unfold ctor. intros H.
+  destruct (0 <? a_B a) eqn:H1; cbn [negb] in H; [|discriminate].
+  destruct (a_B a <=? a_N a) eqn:H2; cbn [negb] in H; [|discriminate].
+  destruct (match a_D a with Some d => _ | None => true end) eqn:H3; cbn [negb] in H; [|discriminate].
+  destruct (opt_nonneg (a_epochs a)) eqn:H4; cbn [negb] in H; [|discriminate].
+  destruct (opt_nonneg (a_updates a)) eqn:H5; cbn [negb] in H; [|discriminate].
+  destruct (opt_nonneg (a_samples a)) eqn:H6; cbn [negb] in H; [|discriminate].
+  destruct (Nat.eqb _ 1) eqn:H7; cbn [negb] in H; [|discriminate].
+  destruct (forallb side_asserts (a_sides a)) eqn:H8; cbn [negb] in H; [|discriminate].
+  destruct (checkpoint (cfg_of_args a) _ _ _) as [e' u' s'| |] eqn:H9; try discriminate.
+  injection H as <- <- <- <-. split; [reflexivity|]. split; [|exact H9].
+  apply Z.ltb_lt in H1. apply Z.leb_le in H2. apply Nat.eqb_eq in H7. split.
+  - unfold cfg_ok, cfg_of_args. cbn [cB cN cD drop_last sides].
+    split; [lia|]. split; [lia|]. split.
+    + intros d Hd. rewrite Hd in H3.
+      apply andb_true_iff in H3. destruct H3 as [H3 H3c]. apply andb_true_iff in H3. destruct H3 as [H3 H3b].
+      apply andb_true_iff in H3. destruct H3 as [H3a H3m].
+      apply Z.eqb_eq in H3m. apply Z.leb_le in H3b, H3c. split; [exact H3a|]. split; [|lia].
+      exists (d / a_B a). rewrite (Z.div_mod d (a_B a)) at 1 by lia. lia.
+    + apply Forall_forall. intros sc Hin. rewrite forallb_forall in H8. now apply H8.
+  - unfold one_budget.
+    destruct (a_epochs a) as [x|], (a_updates a) as [y|], (a_samples a) as [z|]; cbn in H7; try discriminate.
+    + left. exists x. cbn in H4. apply Z.leb_le in H4. auto.
+    + right; left. exists y. cbn in H5. apply Z.leb_le in H5. auto.
+    + right; right. exists z. cbn in H6. apply Z.leb_le in H6. auto.
+Qed.
+
+(* and conversely: valid arguments pass all assertions, the outcome is the checkpoint's *)
+Theorem ctor_complete a : args_valid a ->
+  ctor a = match checkpoint (cfg_of_args a) (a_start_epoch a) (a_start_update a) (a_start_sample a) with
+           | Start e u s => Ok (cfg_of_args a) e u s
+           | NotImplemented => CNotImplemented
+           | AssertFail => CAssertFail
+           end.
+Proof.
+  intros [(HB & HBN & HD & HS) Hone]. unfold cfg_of_args in HB, HBN, HD, HS. cbn [cB cN cD drop_last sides] in *.
+  unfold ctor.
+  rewrite (proj2 (Z.ltb_lt _ _)) by lia. cbn [negb].
+  rewrite (proj2 (Z.leb_le _ _)) by lia. cbn [negb].
+  assert (match a_D a with
+          | Some d => (a_drop_last a && (d mod a_B a =? 0)) && (a_B a <=? d) && (d <=? a_N a)
+          | None => true end = true) as ->.
+  { destruct (a_D a) as [d|]; [|reflexivity]. destruct (HD d eq_refl) as (Hdl & [m Hm] & Hr).
+    rewrite Hdl. subst d. rewrite Z.mod_mul by lia. cbn.
+    rewrite (proj2 (Z.leb_le _ _)) by lia. rewrite (proj2 (Z.leb_le _ _)) by lia. reflexivity. }
+  cbn [negb].
+  assert (opt_nonneg (a_epochs a) = true /\ opt_nonneg (a_updates a) = true /\ opt_nonneg (a_samples a) = true /\
+          Nat.eqb (b2n (is_some (a_epochs a)) + b2n (is_some (a_updates a)) + b2n (is_some (a_samples a))) 1 = true)
+    as (-> & -> & -> & ->).
+  { destruct Hone as [(v & Hv & -> & -> & ->)|[(v & Hv & -> & -> & ->)|(v & Hv & -> & -> & ->)]]; cbn;
+      rewrite (proj2 (Z.leb_le _ _)) by lia; auto. }
+  cbn [negb].
+  assert (forallb side_asserts (a_sides a) = true) as ->.
+  { apply forallb_forall. intros sc Hin. rewrite Forall_forall in HS. now apply HS. }
+  cbn [negb]. reflexivity.
+Qed.
+
+(* hence the premise of the property theorems is not vacuous on real use: what
+   the constructor accepts is well-formed as soon as the samplers' len() is
+   what their iteration yields *)
+Theorem ctor_accepts_wf a c e u s mi : ctor a = Ok c e u s -> env_ok c mi -> WF c mi.
+Proof.
+  intros H He. destruct (ctor_ok a c e u s H) as (-> & [Hok _] & _). now apply WF_of_ok.
+Qed.
 
 (* every index of a pass resolves back to its own dataset and position *)
 Lemma concat_lookup_aux_app : forall pre n post di idx,
@@ -253,11 +570,11 @@ Proof.
   intros H. induction b as [|i b IH]; [reflexivity|].
   destruct b as [|j b]; [cbn; now rewrite H|]. rewrite emit_cons2, map_cons, H, IH. reflexivity.
 Qed.
-Theorem side_pass_whole c ci sc : 0 < or_default (sbs sc) (cB c) ->
-  map ev_idx (side_events c ci sc) = map (Z.add (offset_of c ci)) (sidx sc).
+Theorem side_pass_whole c ci sc p : 0 < or_default (sbs sc) (cB c) ->
+  map ev_idx (side_events c ci sc p) = map (Z.add (offset_of c ci)) (sidx sc p).
 Proof.
   intros Hb. unfold side_events.
-  rewrite <- (concat_chunk (Z.to_nat (or_default (sbs sc) (cB c))) (map (Z.add (offset_of c ci)) (sidx sc))) at 2 by lia.
+  rewrite <- (concat_chunk (Z.to_nat (or_default (sbs sc) (cB c))) (map (Z.add (offset_of c ci)) (sidx sc p))) at 2 by lia.
   induction (chunk _ _) as [|b bs IH]; [reflexivity|].
   cbn [flat_map concat]. rewrite map_app, IH. f_equal. apply emit_idx. reflexivity.
 Qed.
@@ -312,38 +629,38 @@ Proof.
   induction b as [|i b IH]; [reflexivity|]. destruct b as [|j b]; [reflexivity|].
   rewrite emit_cons2. cbn [filter is_main]. exact IH.
 Qed.
-Lemma filter_main_side_events c ci sc : filter is_main (side_events c ci sc) = [].
+Lemma filter_main_side_events c ci sc p : filter is_main (side_events c ci sc p) = [].
 Proof.
   unfold side_events. induction (chunk _ _) as [|b bs IH]; [reflexivity|].
   cbn [flat_map]. rewrite filter_app, filter_main_emit_side, IH. reflexivity.
 Qed.
-Lemma filter_main_passes c k : forall l ci, filter is_main (passes_from c ci l k) = [].
+Lemma filter_main_passes c k : forall l ci pn, filter is_main (passes_from c ci l pn k) = [].
 Proof.
-  induction l as [|sc l IH]; intros ci; [reflexivity|]. cbn [passes_from].
+  induction l as [|sc l IH]; intros ci pn; [reflexivity|]. destruct pn as [|p pn]; [reflexivity|]. cbn [passes_from].
   rewrite filter_app, IH, app_nil_r. destruct (due sc k); [apply filter_main_side_events|reflexivity].
 Qed.
 
 (* the main part of an update is exactly its batch: all indices not-full but the last *)
-Theorem update_main_part c e bs j :
-  filter is_main (u_events (upd_at c e bs j)) = emit Main (nth j bs []).
+Theorem update_main_part c e bs pn j :
+  filter is_main (u_events (upd_at c e bs pn j)) = emit Main (nth j bs []).
 Proof.
   unfold upd_at. cbn [u_events]. rewrite filter_app, filter_main_emit_main, filter_main_passes.
   apply app_nil_r.
 Qed.
 
 (* and the side part of an update is exactly the passes of the due configs *)
-Theorem update_side_part c e bs j :
-  filter (fun x => negb (is_main x)) (u_events (upd_at c e bs j))
-  = passes_from c 0 (sides c) (counters_at c e bs j).
+Theorem update_side_part c e bs pn j :
+  filter (fun x => negb (is_main x)) (u_events (upd_at c e bs pn j))
+  = passes_from c 0 (sides c) (pn_at c pn e bs j) (counters_at c e bs j).
 Proof.
   unfold upd_at. cbn [u_events]. rewrite filter_app.
   assert (forall b, filter (fun x => negb (is_main x)) (emit Main b) = []) as ->.
   { induction b as [|i b IH]; [reflexivity|]. destruct b as [|i2 b]; [reflexivity|].
     rewrite emit_cons2. cbn [filter is_main negb]. exact IH. }
   cbn [app].
-  assert (forall l ci, filter (fun x => negb (is_main x)) (passes_from c ci l (counters_at c e bs j))
-                       = passes_from c ci l (counters_at c e bs j)) as H.
-  { induction l as [|sc l IH]; intros ci; [reflexivity|]. cbn [passes_from].
+  assert (forall l ci pn, filter (fun x => negb (is_main x)) (passes_from c ci l pn (counters_at c e bs j))
+                       = passes_from c ci l pn (counters_at c e bs j)) as H.
+  { induction l as [|sc l IH]; intros ci pn0; [reflexivity|]. destruct pn0 as [|p pn0]; [reflexivity|]. cbn [passes_from].
     rewrite filter_app, IH. f_equal. destruct (due sc _); [|reflexivity].
     unfold side_events. induction (chunk _ _) as [|b bs' IHb]; [reflexivity|].
     cbn [flat_map]. rewrite filter_app, IHb. f_equal.
